@@ -60,13 +60,13 @@ def find_dop(it):
     return best[0], best[1], best[2]
 
 
-def step_variable(fi, it, dop=None):
+def step_variable(fi, it, dop=None, gamma=None):
     """name of the step-size variable by its role: the value s for which a propagation site is the symmetric split step of size s"""
     if dop is None:
         dop = find_dop(it)[0]
     if dop is None:
         return None
-    gamma = S("gamma")
+    gamma = S("gamma") if gamma is None else gamma
     for stmt, fvar, val, env in find_sites(fi, it):
         A = env[fvar]
         for nm, v in env.items():
@@ -80,15 +80,29 @@ def step_variable(fi, it, dop=None):
     return None
 
 
-def rule_steps(ctx, fi, it, rule_acc="C08.1", rule_site="C08.2", dop=None):
+def fiber_interp(pkg, gamma_class):
+    """FIBER interpreted for one class of the nonlinear coefficient: the code only tests gamma against 0, and with gamma == 0 the
+    nonlinear factor is exp(0) = 1 whatever power estimate it is given, so the two classes are analysed separately"""
+    ass = {"show_progress": False, "input.noise": "none"}
+    pv = {}
+    if gamma_class == "zero":
+        pv["gamma"] = Form.num(0)
+    else:
+        ass["gamma"] = ("truth", True)
+    it = Interp(pkg, assumptions=ass, param_classes={"input": "optical_signal"}, param_values=pv)
+    it.run(pkg.func("devices.FIBER"))
+    return it, (Form.num(0) if gamma_class == "zero" else S("gamma"))
+
+
+def rule_steps(ctx, fi, it, rule_acc="C08.1", rule_site="C08.2", dop=None, gamma=None, label=""):
     dop_name = None
     if dop is None:
         dop, _, dop_name = find_dop(it)
     sites = find_sites(fi, it)
     if len(sites) < 1 or dop is None:
-        ctx.unknown(rule_acc, fi, fi.node, "FIBER propagation sites", "no split-step application found")
+        ctx.unknown(rule_acc or rule_site, fi, fi.node, "FIBER propagation sites", "no split-step application found")
         return
-    gamma = S("gamma")
+    gamma = S("gamma") if gamma is None else gamma
     stepvar = {}
     for stmt, fvar, val, env in sites:
         A = env[fvar]
@@ -108,11 +122,13 @@ def rule_steps(ctx, fi, it, rule_acc="C08.1", rule_site="C08.2", dop=None):
         where = "inside the stepping loop" if any(isinstance(p, (ast.While, ast.For)) for p in parents(stmt)) else "after the loop (final partial step)"
         if rule_site:
             if found is not None:
-                ctx.holds(rule_site, fi, stmt, src_of(stmt) + " " + where, f"symmetric split step N*ifft(L*fft(N*A)) with N=exp(j*gamma*({found}/2)*|A|^2), L=exp(D_op*{found})")
+                ctx.holds(rule_site, fi, stmt, src_of(stmt) + " " + where + label, f"symmetric split step N*ifft(L*fft(N*A)) with N=exp(j*gamma*({found}/2)*|A|^2), L=exp(D_op*{found})")
             else:
-                ctx.violation(rule_site, fi, stmt, src_of(stmt) + " " + where + " [with exp_NL/exp_L as assigned before it]",
+                ctx.violation(rule_site, fi, stmt, src_of(stmt) + " " + where + label + " [with exp_NL/exp_L as assigned before it]",
                               "not the symmetric split step N*ifft(L*fft(N*A)) with N=exp(j*gamma*(s/2)*|A|^2), L=exp(D_op*s) for one step size s "
                               "(half-step, full step and accounting must use the same s)")
+    if rule_acc is None:
+        return
     # Karr
     g = CFG(fi.node)
     length = fi.params[1] if len(fi.params) > 1 else "length"
@@ -247,6 +263,9 @@ def rule_shortcut(ctx, fi, it):
     length = fi.params[1]
     hname = step_variable(fi, it)
     if hname is None:
+        itn, gform = fiber_interp(pkg, "nonzero")
+        hname = step_variable(fi, itn, gamma=gform)
+    if hname is None:
         ctx.unknown("C08.4", fi, fi.node, "FIBER single-step shortcut", "step-size variable not identified (no site is the symmetric split step of one variable)")
         return
     first_stmt = None
@@ -300,7 +319,10 @@ def run(ctx):
     fi = pkg.func("devices.FIBER")
     it = Interp(pkg, assumptions={"show_progress": False, "input.noise": "none"}, param_classes={"input": "optical_signal"})
     it.run(fi)
-    rule_steps(ctx, fi, it, "C08.1", "C08.2")
+    itn, gform = fiber_interp(pkg, "nonzero")
+    rule_steps(ctx, fi, itn, "C08.1", "C08.2", gamma=gform, label=" [gamma != 0]")
+    itz, gz = fiber_interp(pkg, "zero")
+    rule_steps(ctx, fi, itz, None, "C08.2", gamma=gz, label=" [gamma == 0]")
     rule_rank_guard(ctx, fi)
     rule_shortcut(ctx, fi, it)
     # the noise-free output is built from the propagated field with the input's layout
